@@ -175,7 +175,9 @@ func New(o Opts, db dbm.DB) (*Replica, error) {
 	if r.App, err = appstate.NewAppState(db, r.Bus); err != nil {
 		return nil, err
 	}
-	validation.SetAppConfig(cfg)
+	if !KeepAppConfig {
+		validation.SetAppConfig(cfg)
+	}
 	r.Pool = mempool.NewTxPool(r.App, r.Bus, cfg, collector.NewStatsCollector())
 	r.Offline = blockchain.NewOfflineDetector(cfg, db, r.App, r.Sec, r.Bus)
 	keyMu.Lock()
@@ -214,7 +216,16 @@ func New(o Opts, db dbm.DB) (*Replica, error) {
 }
 
 // Activate makes this replica the one the process-global validation config refers to.
-func (r *Replica) Activate() { validation.SetAppConfig(r.Cfg) }
+func (r *Replica) Activate() {
+	if !KeepAppConfig {
+		validation.SetAppConfig(r.Cfg)
+	}
+}
+
+// KeepAppConfig freezes the process-global validation config (free-running race passes build
+// replicas while goroutines of earlier replicas may still read it; all replicas of such a pass
+// use the same consensus configuration).
+var KeepAppConfig bool
 
 // ---------------------------------------------------------------- db images
 
